@@ -454,6 +454,34 @@ def gen_file(rng, style=None, kind=None, st=None, header=None, mode=None):
 
     def pad():
         return ' ' * rng.randint(1, 4)
+    # round 6 (class G): rows that do not carry exactly one cell per declared column.  The raw reader fills the columns
+    # from the left and stops at the end of the line (a SHORT row contributes nothing to the later columns) and never looks
+    # beyond the last column (an OVER-LONG row).  set_maskbits reads flag / bit / label (flag / alias) only, so a row may
+    # leave out every trailing column that is not one of those -- the description is documentation -- and still defines
+    # its label: such a file is well formed in the sense of the property.
+    irregular = rng.random() < 0.45
+    rowforms = {'full': 0, 'short': 0, 'long': 0}
+
+    def cells(colnames, val):
+        vs = [val[c] for c in colnames]
+        form = 'full'
+        if irregular:
+            droppable = 0
+            for c in reversed(colnames):
+                if c in ('flag', 'bit', 'label', 'alias'):
+                    break
+                droppable += 1
+            t = rng.random()
+            if t < 0.5 and droppable:
+                vs = vs[:len(vs) - rng.randint(1, droppable)]
+                form = 'short'
+                if rng.random() < 0.25:
+                    vs.append(rng.choice(['# no description', '#', '# "quoted" remark']))
+            elif t < 0.7:
+                vs = vs + rng.sample(['17', 'more', '"more text"', '{1 2}', '0.5', '{{}}'], rng.randint(1, 2))
+                form = 'long'
+        rowforms[form] += 1
+        return ''.join(pad() + v for v in vs)
     body = []
     for g in gnames:
         if rng.random() < 0.7:
@@ -462,11 +490,11 @@ def gen_file(rng, style=None, kind=None, st=None, header=None, mode=None):
         return rng.choice([w, w, w.upper(), w.capitalize()])
     for i, (g, b, lab) in enumerate(frows):
         val = {'flag': g, 'bit': '%d' % b, 'label': lab, 'description': '"bit %d of %s"' % (b, g.upper()), 'extra': '%d' % rng.randint(0, 99)}
-        body.append((i, kw('maskbits') + ''.join(pad() + val[c] for c in cols)))
+        body.append((i, kw('maskbits') + cells(cols, val)))
     arows = []
     for t, a in faliases:
         val = {'flag': t, 'alias': a, 'description': '"%s is a synonym"' % a.upper()}
-        arows.append(kw('maskalias') + ''.join(pad() + val[c] for c in acols))
+        arows.append(kw('maskalias') + cells(acols, val))
     out = []
     if rng.random() < 0.5:
         out = [l for _, l in body] + arows
@@ -484,7 +512,7 @@ def gen_file(rng, style=None, kind=None, st=None, header=None, mode=None):
         final.append(l)
     text = '\n'.join(lines + final) + '\n'
     return {'text': text, 'style': style, 'kind': kind, 'note': note, 'groups': groups, 'gnames': gnames, 'structure': st,
-            'decl': decl_stats, 'name_mode': st.get('mode', 'short'),
+            'decl': decl_stats, 'name_mode': st.get('mode', 'short'), 'row_forms': rowforms,
             'names': names, 'alias_of': alias_of, 'rows': [list(r) for r in frows], 'aliases': [list(a) for a in faliases],
             'ghost_groups': list(st.get('ghost_groups', [])), 'ghost_labels': dict(st.get('ghost_labels', {}))}
 
@@ -1061,6 +1089,8 @@ def correspond(ctx, proof_ok=True):
                                 for s in ('upper', 'mixed') for kd in ['wf'] + DEFECTS},
         'files_by_name_mode': {m: sum(1 for k in usable if files[k].get('name_mode') == m) for m in ('short', 'edge', 'long')},
         'declared_width_forms': decl_dist(files, usable),
+        'data_rows_by_form': {f: sum(files[k].get('row_forms', {}).get(f, 0) for k in usable) for f in ('full', 'short', 'long')},
+        'files_with_short_or_overlong_rows': sum(1 for k in usable if files[k].get('row_forms', {}).get('short', 0) + files[k].get('row_forms', {}).get('long', 0)),
         'longest_group_alias_label': [max([len(r[0]) for k in usable for r in outs[k]['rows']] + [len(a[1]) for k in usable for a in outs[k]['aliases']] + [0]),
                                       max([len(r[2]) for k in usable for r in outs[k]['rows']] + [0])],
         'tables_compared_cell_by_cell': sum(1 for k in usable if isinstance(outs[k].get('table'), list)),
